@@ -283,6 +283,8 @@ class AsyncIOClient(ABC):
         if self._process_queue_task and not self._process_queue_task.done():
             self._process_queue_task.cancel()
             await asyncio.sleep(0.01)  # Allow cancellation to propagate
+        # the client is finished for good: flush and close the decoder's dump file (if any)
+        self.decoder.close()
         self.logger.info("Connection closed.")
 
     async def _process_queue(self):
